@@ -29,6 +29,11 @@ MEMBERS = {
                       layout={"a": ("g", "a"), "b_": ("b",), "c_d": ("g", "c_d")}),
     "stack_override": dict(model="MD", recipe="[name_mapping(MD, map={'a': 'x'}), name_mapping(MD, map={'a': 'y', 'c_d': 'z'})]",
                            layout={"a": ("x",), "b_": ("b",), "c_d": ("z",)}),
+    # a bare Ellipsis in a dict-form map pins the field to its generated key AT THAT provider: later providers / later map elements do not get a say
+    "stack_ellipsis": dict(model="MD", recipe="[name_mapping(MD, map={'a': ..., 'c_d': ...}), name_mapping(MD, name_style=NameStyle.CAMEL, map={'a': 'never', 'b_': 'bee'})]",
+                           layout={"a": ("a",), "b_": ("bee",), "c_d": ("cD",)}),        # (name_style is taken from the first provider that sets one: the generated key of c_d is cD)
+    "map_list_ellipsis": dict(model="MD", recipe="[name_mapping(MD, map=[{'a': ...}, {'a': 'never', 'c_d': ('g', ...)}, ('c_d', 'never2')])]",
+                              layout={"a": ("a",), "b_": ("b",), "c_d": ("g", "c_d")}),
     "stack_style": dict(model="MD", recipe="[name_mapping(MD, name_style=NameStyle.CAMEL), name_mapping(MD, name_style=NameStyle.UPPER_KEBAB, map={'a': 'x'})]",
                         layout={"a": ("x",), "b_": ("b",), "c_d": ("cD",)}),
     "stack_skip": dict(model="MD", recipe="[name_mapping(MD, skip=['c_d']), name_mapping(MD, skip=['b_'], trim_trailing_underscore=False)]",
